@@ -554,8 +554,22 @@ pub fn generate(profile_name: &str, seed: u64) -> Program {
     let mut rng = Rng::new(seed ^ 0xC0FF_EE00_0000_0000);
     let sw = gen_swarm(&mut rng, &p);
     let mut g = G { rng, p: p.clone(), next_id: 0, srcs: vec![], idles: vec![], tasks: vec![], adapters: vec![], sigsrc: vec![], sw };
-    let n = g.rng.range(p.steps.0, p.steps.1);
+    let mut n = g.rng.range(p.steps.0, p.steps.1);
+    if g.rng.chance(1, 12) {
+        // a long history now and then
+        n *= 4;
+    }
     let mut steps = Vec::new();
+    if (p.name == "C02" || p.name == "C01" || p.name == "core") && g.rng.chance(1, 60) {
+        // many simultaneously ready sources
+        let cnt = *g.rng.pick(&[24u32, 64, 200]);
+        let base = g.next_id;
+        g.next_id += cnt;
+        for i in 0..cnt.min(6) {
+            g.srcs.push((base + i, KindTag::Ping, false));
+        }
+        steps.push(Op::ManyPings { base, n: cnt });
+    }
     // most programs start with a few sources
     let k = g.rng.range(1, 3);
     for _ in 0..k {
